@@ -1146,6 +1146,7 @@ static void l_gen(prng_t *r, int mode, plan_t *p)
 {
     p->cfg[CF_FAR] = FAR_OF_INDEX();      /* element blocks 2^32 or 3 * 2^31 bytes apart in one run in seven each */
     p->cfg[CF_DECL] = DECL_OF_INDEX();    /* one run in five starts from the initializer macros */
+    p->cfg[CF_REUSE] = REUSE_OF_INDEX();  /* one run in six: the allocator hands a freed block out again at once */
     int nops, i, longrun, small;
     int d_only = mode == 12, s_only = mode == 13;
     unsigned w_clear;
